@@ -1,6 +1,6 @@
 #!/usr/bin/env python3
 """C13  LU-based solves are exact: B^-1 B = I for every basis and update history."""
-import sys, os, itertools
+import sys, os, itertools, re
 sys.path.insert(0, os.path.dirname(os.path.abspath(__file__)))
 from lib import *
 from gen_lp import *
@@ -476,7 +476,9 @@ def judge_component(ck, c, toks, qlist, qmeta, hist, pybad, updq, updmeta, luq=N
         if not ok_struct:
             ck.violation("sing_struct_%s.txt" % c.cid, c.text(), "the singular report of mpq_ILLfactor (nsing %d, rows %s, columns %s) is not the range stage..nstages (%d..%d) of the "
                          "permutations of the factor_work (rperm %s, cperm %s)" % (nsing, singr, singc, stage, nstages, rperm, cperm), match=dict(kind="sing-report"))
-            return
+            if not (all(0 <= x < n for x in singr + singc) and len(set(singc)) == len(singc) and 0 <= stage <= n and len(rperm) == n and len(cperm) == n):
+                return
+            # the verified judges still say what the report is worth
         rep = repaired_matrix(mat, singr, singc)
         X = inverse_matrix(rep)
         qid = "%s.S%d" % (c.cid, st["nl"])
@@ -1083,6 +1085,13 @@ def main():
                       "C: the struct factor_work is dumped after every factorization and update (n <= 80): extracted struct_ok on every dump, check_repr + model walk for n <= 16 (and the first dump of some large "
                       "histories), and for every ILLfactor_update between two dumps the extracted update_spike (with the library's spike) / update (own spike) applied to the dump before: the result must equal the "
                       "dump after (lines as pivot + set of entries, row etas as sets, permutations) and solve alike; refused updates (E_UPDATE_SINGULAR_*) must be refused by the model.  "
+                      "D: after every mpq_ILLfactor (FACTOR, refactorization inside FUPD, REVERT) the pivot order is read off the dumped permutations (rperm, cperm in rank order) and the extracted "
+                      "lu_factor (Fac/LUFactor.v: Gaussian elimination with that order, proved to represent the matrix for every order it accepts) runs on the input matrix: its result must equal the dump "
+                      "(U by columns / rows as pivot + set of entries, L etas and L by rows as sets, permutations, no row etas: repr_same_lu) and its ftran / btran must equal the library's result vectors; "
+                      "the header field dense_base (-1 <=> dense_factor did not run; set by the harness before the call) says which replays went through the dense kernel.  A factorization that reports "
+                      "nsing > 0 is dumped too (permutations, stage, nstages): the report must be the range stage..nstages of the permutations; an untrusted inverse X of the repaired matrix (reported columns := unit "
+                      "columns of the reported rows) is checked by the extracted check_sing_report (X multiplies back, its rows singc are left null vectors of B: sing_report_sound), and the extracted "
+                      "elimination with the pivots of rank < stage must leave a zero kernel on the reported rows x columns.  Dense fractional matrices of dimension > 16 are sampled for the replay (cost).  "
                       "All model runs are under a wall-clock budget; every solve is first screened by an untrusted exact multiply-back, a failing equation is confirmed by the extracted checker.  "
                       "non-trivial = non-singular matrix with at least one judged solve, or a singularity verdict; distinct by script text")
     ck.cov["histogram"] = dict(sorted(hist.items()))
@@ -1093,9 +1102,17 @@ def main():
     ck.cov["exhaustive"] = bool(T)
     ck.cov["evaluations"] = len(cases) + len(comp)
     ck.cov["crashes_seen"] = [dict(case=c_, rc=rc) for c_, rc, e in crashes + ccr]
-    ck.cov["not_covered"] = ("pivot selection of ILLfactor (Markowitz / dense kernel) and the space management (eta space, refactor requests, E_UPDATE_NOSPACE) are explored, not proved; the sparse "
+    ck.cov["not_covered"] = ("the pivot SEARCH of ILLfactor (find_pivot: singleton lists, Markowitz counts, partial pivoting threshold; dense_find_pivot) is not modelled: the elimination is proved and replayed for "
+                             "whatever pivot order the library produced; that the search finds a non-zero pivot whenever one exists is tied only through the singular reports (certified exact) and the "
+                             "exhaustive small matrices; the space management (make_ur/uc/lc_space, eta space, refactor requests, E_UPDATE_NOSPACE) is explored, not proved; the order of the entries inside "
+                             "a U line / an eta is not modelled (compared as sets); factorization replays of dense fractional matrices of dimension 17..40 are sampled; the sparse "
                              "path of ILLfactor_update (serow_process) is tied to the proved dense-path model by values only; update replays on dense fractional matrices of dimension 17..40 are sampled; "
                              "after a solve stopped at an iteration limit the library refuses tableau queries (no cache), so intermediate bases are observed through pivotin sequences and resumed solves only")
+    # only the first 20 violations are printed: interleave the kinds (first of every kind, then the second of every kind, ...)
+    groups = {}
+    for v in ck.violations:
+        groups.setdefault(re.sub(r"[0-9]+", "", v[1])[:40], []).append(v)
+    ck.violations = [g[i] for i in range(max((len(g) for g in groups.values()), default=0)) for g in groups.values() if i < len(g)]
     ck.assumptions = ["Coq kernel; extraction (ExtrOcamlBasic) + OCaml compiler", "harness h_fac + text protocol", "GMP = exact rational arithmetic"]
     ck.finish(trusted_base=["coqc 8.16.1 kernel", "OCaml extraction (ExtrOcamlBasic only)", "harness h_fac.c + checks/C13.py + checks/fac_common.py"])
 
